@@ -377,6 +377,41 @@ func registerReflectModel(e *Engine) {
 		st.unsupported("Type.Implements on types without a Go type")
 		return nil
 	})
+	goTypeOf := func(rt *RType) types.Type {
+		if rt.GoType != nil {
+			return rt.GoType
+		}
+		return kindGoType(rt.Kind)
+	}
+	tm("Comparable", func(st *State, rt *RType, a []Value) Value {
+		gt := goTypeOf(rt)
+		if gt == nil {
+			st.unsupported("Type.Comparable on a type without a Go type")
+		}
+		return BoolT(types.Comparable(gt))
+	})
+	tm("AssignableTo", func(st *State, rt *RType, a []Value) Value {
+		u := asRType(st, a[0])
+		if u == nil {
+			st.rpanic("reflect: nil type passed to Type.AssignableTo")
+		}
+		g1, g2 := goTypeOf(rt), goTypeOf(u)
+		if g1 == nil || g2 == nil {
+			st.unsupported("Type.AssignableTo on types without a Go type")
+		}
+		return BoolT(types.AssignableTo(g1, g2))
+	})
+	tm("ConvertibleTo", func(st *State, rt *RType, a []Value) Value {
+		u := asRType(st, a[0])
+		if u == nil {
+			st.rpanic("reflect: nil type passed to Type.ConvertibleTo")
+		}
+		g1, g2 := goTypeOf(rt), goTypeOf(u)
+		if g1 == nil || g2 == nil {
+			st.unsupported("Type.ConvertibleTo on types without a Go type")
+		}
+		return BoolT(types.ConvertibleTo(g1, g2))
+	})
 	tm("Bits", func(st *State, rt *RType, a []Value) Value {
 		bits := map[int]int64{rkInt: 64, rkInt8: 8, rkInt16: 16, rkInt32: 32, rkInt64: 64, rkUint: 64, rkUint8: 8, rkUint16: 16, rkUint32: 32, rkUint64: 64, rkUintptr: 64, rkFloat32: 32, rkFloat64: 64, rkComplex64: 64, rkComplex128: 128}
 		return st.E.intTerm(big.NewInt(bits[rt.Kind]), types.Typ[types.Int])
